@@ -26,6 +26,7 @@ RO = 0x502000           # read-only page
 HOLE = 0x503000         # never mapped
 STACK_SIZE = 0x1000
 STACK_BASE = 0x1230000
+STACK_LOW = STACK_BASE - 0x1000
 TICK_CAP = 3000
 CP_CAP = 6000
 
@@ -282,7 +283,8 @@ def gen_program_x86(rng, feat, bits=32):
         kind = rng.choice(["store", "store", "load", "load", "rmw", "rmw_imm", "two_mem"])
         if kind == "two_mem":
             # instructions that read one location and write another one
-            k2 = rng.choice(["push_mem", "pop_mem", "movs"]) if "stack" in feat else "movs"
+            can_movs = bits == 32 and "ESI" in regs and "EDI" in regs      # never clobber a loop counter
+            k2 = rng.choice(["push_mem", "pop_mem"] + (["movs"] if can_movs else []))
             if k2 == "push_mem":
                 return "PUSH %s PTR [0x%x]\nPOP %s" % (W, data_addr(4), reg32)
             if k2 == "pop_mem":
@@ -333,7 +335,7 @@ def gen_program_x86(rng, feat, bits=32):
                 out.extend(body(rng.randint(1, 4), inner, depth + 1))
                 out.append("DEC %s" % cnt)
                 out.append("JNZ %s" % l)
-            elif r < 0.96 and "rep" in feat and bits == 32:
+            elif r < 0.96 and "rep" in feat and bits == 32 and all(x in regs for x in ("ESI", "EDI", "ECX")):
                 out.append("MOV ESI, 0x%x" % (D0 + rng.choice([0, 4, 0x20])))
                 out.append("MOV EDI, 0x%x" % (rng.choice([D0 + 0x100, D1 - 3, D1 + 0x10])))
                 out.append("MOV ECX, %d" % rng.randint(1, 6))
@@ -362,9 +364,14 @@ def gen_program_x86(rng, feat, bits=32):
             seq.append("cell%d:" % i)
             seq.append("MOV EAX, 0x%x" % (0x11110000 + i))          # B8 imm32: imm at cell+1
             seq.append("MOV DWORD PTR [0x%x], EAX" % (D0 + 0x200 + 4 * i))
+        head = rng.random() < 0.5
+        if head:
+            # a cell in the head of the program: it is executed once, belongs to the entry block only,
+            # and is overwritten later (an invalidation that must not disturb overlapping blocks)
+            main = ["cell9:", "MOV EAX, 0x11110009", "MOV DWORD PTR [0x%x], EAX" % (D0 + 0x224)] + main
         writers = []
         for _ in range(rng.randint(1, 4)):
-            tgt = rng.randrange(ncell)
+            tgt = 9 if head and rng.random() < 0.35 else rng.randrange(ncell)
             byte = rng.randint(1, 4)
             writers.append("MOV BYTE PTR [cell%d+%d], 0x%x" % (tgt, byte, rng.getrandbits(8)))
         lcell = lab()
@@ -405,6 +412,9 @@ def make_jitter(arch, backend, prog, init_regs, knobs):
     j.vm.add_memory_page(D0, c.PAGE_READ | c.PAGE_WRITE, bytes((i * 7 + 3) & 0xFF for i in range(0x1000)), "d0")
     j.vm.add_memory_page(D1, c.PAGE_READ | c.PAGE_WRITE, bytes((i * 5 + 1) & 0xFF for i in range(0x1000)), "d1")
     j.vm.add_memory_page(RO, c.PAGE_READ, bytes((i * 3 + 9) & 0xFF for i in range(0x1000)), "ro")
+    # a second stack page below the first one: a multi-store instruction (PUSHAD, CALL chains) started
+    # near the boundary straddles two pages that the injector can fault independently
+    j.vm.add_memory_page(STACK_LOW, c.PAGE_READ | c.PAGE_WRITE, bytes(0x1000), "stack_low")
     for name, val in init_regs.items():
         setattr(j.cpu, name, val)
     j.jit.set_options(jit_maxline=knobs.get("maxline", 50), max_exec_per_call=knobs.get("quantum", 0))
@@ -444,6 +454,21 @@ class Reference(object):
         pcregs = ARCH_INFO[arch]["pcregs"]
         j = make_jitter(arch, "python", prog, init_regs, {"maxline": 1})
         self.applied_writes = 0
+        # per-tick memory accesses of the reference (kind, address, size): what a fault must stop
+        self.acc = []
+        sb = j.jit.symbexec
+        real_read, real_write = sb.mem_read, sb.mem_write
+
+        def spy_read(expr_mem):
+            if expr_mem.ptr.is_int() and self.acc:
+                self.acc[-1].append(("r", int(expr_mem.ptr), expr_mem.size // 8))
+            return real_read(expr_mem)
+
+        def spy_write(dest, data):
+            if dest.ptr.is_int() and self.acc:
+                self.acc[-1].append(("w", int(dest.ptr), dest.size // 8))
+            return real_write(dest, data)
+        sb.mem_read, sb.mem_write = spy_read, spy_write
 
         def cb(jitter):
             if smc:
@@ -454,17 +479,20 @@ class Reference(object):
             self.index[d] = len(self.pcs)
             self.pcs.append(jitter.pc)
             self.digests.append(d)
+            self.acc.append([])
             if len(self.pcs) > TICK_CAP:
                 raise Discard("reference exceeds the tick cap")
-            wrote = False
-            for addr, data in host_writes.get(d, ()):
-                jitter.vm.set_mem(addr, data)
-                self.applied_writes += 1
-                wrote = True
-            if wrote:
-                # the state right after the host writes belongs to the same tick (a control point
-                # of the run under test may observe it before the next instruction retires)
-                self.index.setdefault(digest(jitter, pcregs), len(self.pcs) - 1)
+            cur = d
+            seen = set()
+            while cur in host_writes and cur not in seen:
+                seen.add(cur)
+                for addr, data in host_writes[cur]:
+                    jitter.vm.set_mem(addr, data)
+                    self.applied_writes += 1
+                # the state right after the host writes belongs to the same tick: a later control point
+                # of the run under test may observe it (and write again) before the next instruction retires
+                cur = digest(jitter, pcregs)
+                self.index.setdefault(cur, len(self.pcs) - 1)
             return True
         j.exec_cb = cb
         done = []
@@ -508,6 +536,7 @@ class TestRun(object):
         self.last_tick = -1
         self.held = {}                  # addr -> (bytes, access) pages held out by the injector
         self.perm = {}                  # addr -> original access of pages with flipped permission
+        self.j_perm = {}                # addr -> access currently in force on those pages
         self.ended = False
         self.want_stop = False
         self.by_cp = {}
@@ -540,6 +569,7 @@ class TestRun(object):
             tick = self.ref.index.get(d)
             if tick is None or tick < self.last_tick:
                 self.diverged(kind, jitter, d, tick)
+            self.check_missed_faults(max(self.last_tick, 0), tick)
             self.last_tick = tick
         else:
             self.cp_digests.append(d)
@@ -552,12 +582,38 @@ class TestRun(object):
                 stop = True
         return stop
 
+    def check_missed_faults(self, t1, t2):
+        """The instructions of the ticks [t1, t2) were retired without a fault stop: none of them may
+        have touched a byte that the injector had unmapped or protected during that interval."""
+        if not (self.held or self.perm):
+            return
+        c = self.e.csts
+        bad = []
+        for page, (data, _) in self.held.items():
+            bad.append((page, page + len(data), "rw", "unmapped"))
+        for page, orig in self.perm.items():
+            now = self.j_perm.get(page, 0)
+            lost = ("r" if not now & c.PAGE_READ else "") + ("w" if not now & c.PAGE_WRITE else "")
+            if lost:
+                bad.append((page, page + 0x1000, lost, "protected"))
+        for t in range(t1, t2):
+            for kind, addr, size in self.ref.acc[t]:
+                for lo, hi, kinds, why in bad:
+                    if kind in kinds and addr < hi and lo < addr + size:
+                        self.probe("missed_fault_detected")
+                        raise Violation(self.pid + "/missed-fault",
+                                        "%s backend: the instruction at %#x [%s] (tick %d) %s [%#x,+%d) while [%#x,%#x) was %s, "
+                                        "and was retired without a fault" % (self.backend, self.ref.pcs[t], self.prog.text_at.get(self.ref.pcs[t], "?"),
+                                                                         t, "reads" if kind == "r" else "writes", addr, size, lo, hi, why),
+                                        {"backend": self.backend, "access": kind, "why": why,
+                                         "straddle": not (lo <= addr and addr + size <= hi)})
+
     def diverged(self, kind, jitter, d, tick):
         facts = {"backend": self.backend, "at": kind, "maxline": self.cfg["knobs"].get("maxline"),
                  "quantum": self.cfg["knobs"].get("quantum"), "fault_pending": self.pending_fault is not None}
-        regs = jitter.cpu.get_gpreg()
-        detail = "%s backend, control point %d (%s) at pc %#x: state is %s the reference path (last matched tick %d of %d)" % (
-            self.backend, self.cp, kind, jitter.pc,
+        facts["instr"] = self.prog.text_at.get(jitter.pc, "?").split(" ")[0]
+        detail = "%s backend, control point %d (%s) at pc %#x [%s]: state is %s the reference path (last matched tick %d of %d)" % (
+            self.backend, self.cp, kind, jitter.pc, self.prog.text_at.get(jitter.pc, "?"),
             "not on" if tick is None else "behind (tick %d) on" % tick, self.last_tick, self.ref.ticks)
         # help the reader: compare with the nearest reference tick at this pc
         cls = "diverged"
@@ -658,7 +714,7 @@ class TestRun(object):
             self.probe("host_write_" + a[2])
             self.log.add(" act hw", hex(addr), data.hex())
         elif k == "unmap":
-            page = [D0, D1, RO, STACK_BASE][a[2] % 4]
+            page = [D0, D1, RO, STACK_BASE, STACK_LOW][a[2] % 5]
             if page in self.held:
                 return False
             mem = j.vm.get_all_memory()
@@ -669,11 +725,12 @@ class TestRun(object):
             self.probe("fault_injected_unmap")
             self.log.add(" act unmap", hex(page))
         elif k == "perm":
-            page = [D0, D1, STACK_BASE][a[2] % 3]
+            page = [D0, D1, STACK_BASE, STACK_LOW][a[2] % 4]
             if page in self.held or page in self.perm:
                 return False
             self.perm[page] = j.vm.get_mem_access(page)
-            j.vm.set_mem_access(page, [0, c.PAGE_READ, c.PAGE_WRITE][a[3] % 3])
+            self.j_perm[page] = [0, c.PAGE_READ, c.PAGE_WRITE][a[3] % 3]
+            j.vm.set_mem_access(page, self.j_perm[page])
             self.probe("fault_injected_perm")
             self.log.add(" act perm", hex(page), a[3] % 3)
         elif k == "restart":
@@ -739,6 +796,8 @@ class TestRun(object):
         text = self.prog.text_at.get(jitter.pc, "")
         if "0x500ff" in text:
             self.probe("fault_on_straddling_access")
+        if text.startswith(("PUSHAD", "POPAD")):
+            self.probe("fault_kind_multi_store")
         if text.startswith(("PUSH", "POP", "CALL", "RET")):
             self.probe("fault_kind_stack")
         elif "PTR [" in text and text.split(",")[0].find("PTR [") >= 0:
